@@ -338,8 +338,15 @@ theorem exampleHeader_puts :
     t1Puts exampleHeader = .ok [(1, some ['.', 'n', 'o', 't', 'd', 'e', 'f']), (65, some ['A']), (66, some ['u', 'n', 'i', '2', '0', 'A', 'C']), (67, some ['f', '_', 'i']), (65, some ['g', '1', '2', '3'])] := by
   decide +kernel
 
-/-- A `put` without two operands makes `get_encoding` (and font construction) raise `ValueError`. -/
-theorem put_underflow_raises : t1Puts [112, 117, 116, 32] = .error "ValueError" := by decide +kernel
+/-- A `put` without two operands is ignored (it only empties the operand stack): no exception, no assignment. -/
+theorem put_underflow_ignored :
+    t1Puts [112, 117, 116, 32] = .ok [] ∧
+    t1Puts [47, 65, 32, 112, 117, 116, 32, 54, 53, 32, 47, 66, 32, 112, 117, 116, 32] = .ok [(65, some ['B'])] := by
+  decide +kernel
+
+/-- An odd number of objects between `<<` and `>>` makes `get_encoding` (and font construction) raise. -/
+theorem odd_dict_raises : t1Puts [60, 60, 32, 47, 65, 32, 62, 62, 32] = .error "PSSyntaxError" := by
+  decide +kernel
 
 /-! ## Font cache -/
 
